@@ -1,5 +1,6 @@
 import SaVerif.Model.Expr
 import SaVerif.Model.ExprGrammar
+import SaVerif.Model.ExprEval
 import SaVerif.Drv.Parse
 /-!
 Sub-driver of M-EXPR.  One request per line:
@@ -179,6 +180,18 @@ def grammarOf : Dialect → Grammar
 
 def b01 (b : Bool) : String := if b then "1" else "0"
 
+def litVal : Lit → Val
+  | .int i => .int i
+  | .str s => .str s
+  | .bool b => .int (if b then 1 else 0)
+  | .num _ => .null
+  | .null => .null
+
+def tvStr : TV → String
+  | none => "N"
+  | some true => "T"
+  | some false => "F"
+
 /-- remove the `paren` nodes selected by the bits of the mask (pre-order, lowest bit
     first): used to validate a grammar table on groupings SQLAlchemy does not produce -/
 def dropParens : G → Nat → G × Nat
@@ -221,6 +234,15 @@ def handle : List String → String
         match parse g t.print with
         | none => "noparse " ++ b01 (wb g t)
         | some p => "ok " ++ b01 (wb g t) ++ " " ++ b01 (p == t) ++ " " ++ showStr p.fullParen.text
+    | _, _ => "bad-op"
+  | "evalin" :: x :: n :: rest =>
+    match parseLit? x, parseNat? n with
+    | some xv, some k =>
+      match parseLits? k rest with
+      | some (vs, []) =>
+        "ok " ++ tvStr (evalIn (litVal xv) (vs.map litVal)) ++ " " ++
+          tvStr (evalNotIn (litVal xv) (vs.map litVal))
+      | _ => "bad-op"
     | _, _ => "bad-op"
   | "parsedrop" :: mask :: d :: rest =>
     match parseNat? mask, parseDialect? d, parseWire rest with
